@@ -1,5 +1,5 @@
 (* Model/ConstFoldOrig.v — FROZEN hand model of ppci/opt/constantfolding.py as it was found
-   (ppci commit 1a712d0, before the C38 repairs).  Self-contained on purpose: it does not depend
+   (ppci snapshot 722bf2e; constantfolding.py was unchanged until the C38 repairs).  Self-contained on purpose: it does not depend
    on the regenerated Gen files, so the [..._refuted] theorems of C38 keep compiling after the
    repairs are applied.  It is tied to the implementation only through the replay of the witnesses
    (tools/props/c38.py re-executes each of them on the real pass on every run).  No proofs here. *)
